@@ -297,7 +297,7 @@ def jobs(tier, seed):
         for bf in (True, False):
             for grouping in ('per-instance', 'per-entry', 'halves'):
                 for igroup in ('single', 'split', 'halves', 'single-first', 'none'):
-                    for k in range(1 if tier == 'quick' else 6):
+                    for k in range(1 if tier == 'quick' else 24):
                         J.append((cname, bf, grouping, igroup, k, seed))
     return J
 
